@@ -196,6 +196,12 @@ class Interp:
             return
         elif isinstance(st, ast.FunctionDef):
             env[st.name] = Closure(st, env, self)
+        elif isinstance(st, ast.With):
+            # context managers are opaque (locks): the body runs exactly once
+            for item in st.items:
+                if item.optional_vars is not None:
+                    raise AnalysisError(f"{self.name}:{st.lineno}: `with ... as` is outside the subset")
+            self.exec_block(st.body, env)
         else:
             raise AnalysisError(f"{self.name}:{st.lineno}: statement {type(st).__name__} is outside "
                                 "the micro-evaluator's subset")
